@@ -5,7 +5,7 @@ from . import sweeps
 def run(ctx):
     rep = ctx.report
     rep.rule = ("derive_session_event (built without LLTD_TESTING) on harness-built Discovers: every count 1..240 x every "
-                "position of the own address (and absent) x 17 session-table variants (incl. sessions already marked complete, known sequence numbers 1, 0x7fff, 0x8000, 0x8001, 0xffff apart and bit-flipped), each variant again after the clock moved on by "
+                "position of the own address (and absent) x 21 session-table variants (incl. the mapper known only under another generation number - next one, 0, 0xffff, byte-swapped -, sessions already marked complete, known sequence numbers 1, 0x7fff, 0x8000, 0x8001, 0xffff apart and bit-flipped), each variant again after the clock moved on by "
                 "59 s, 60 s, 61 s, 62 s, 1 h and 2^33 ms since the sessions were recorded (no expiry tick in between), plus second Discovers of a session whose first one had a longer list with the own address elsewhere (own address behind the counted entries, inside them, absent), plus tables with a long life behind them (the mapper's session looked up and recorded, then N = 1 .. 131072 Resets / other sessions recorded and removed, N around 2^4, 2^8, 2^9, 2^16), plus all 256 opcodes x both Reset "
                 "destinations; non-trivial = own address present (recognition needed) or opcode classification case")
     rep.assumptions = ["station list = consecutive 6-byte addresses at offset 36 (MS-LLTD)",
